@@ -60,6 +60,7 @@ type Config struct {
 	Refresh    bool
 	Pruning    bool
 	Pacing     bool // instantaneous operations, no injected writes: waits are exact
+	Second     bool // a second real reconciler ("r3": own status slot, own target, own failures) works on the same table
 	Keys       int
 	Phases     int
 	Report     map[string]bool // conv, status, pacing
@@ -108,6 +109,9 @@ type sim struct {
 	model     map[uint64]uint64 // id -> payload of the latest user write (absent = deleted)
 	modelRev  map[uint64]uint64 // id -> revision of the latest user write
 	r2done    map[uint64]uint64 // id -> payload for which the second reconciler set Done
+	target3   map[uint64]uint64 // target of the real second reconciler r3
+	attempts3 []Attempt
+	op3Rng    *rand.Rand
 	nextPay   uint64
 	seq       int64 // event sequence (under mu)
 	failProb  int   // percent
@@ -343,6 +347,114 @@ func (o *ops) Prune(ctx context.Context, txn statedb.ReadTxn, objs iter.Seq2[*RO
 	}
 	s.mu.Unlock()
 	return nil
+}
+
+// ops3 are the operations of the real second reconciler (Config.Second): failures with the same probability, durations
+// 0/1/30 ms, no injected writes.
+type ops3 struct{ s *sim }
+
+func (o *ops3) do(op string, obj *RObj, rev uint64) error {
+	s := o.s
+	a := Attempt{At: s.now(), Op: op, ID: obj.ID, Payload: obj.Payload, Rev: rev, Kind: obj.Statuses.Get("r3").Kind.String()}
+	s.mu.Lock()
+	a.Seq = s.nextSeq()
+	fail := s.op3Rng.IntN(100) < s.failProb
+	dur := []time.Duration{0, 0, time.Millisecond, 30 * time.Millisecond}[s.op3Rng.IntN(4)]
+	s.mu.Unlock()
+	if dur > 0 {
+		time.Sleep(dur)
+	}
+	a.End, a.OK = s.now(), !fail
+	s.mu.Lock()
+	if !fail {
+		if op == "update" {
+			s.target3[a.ID] = a.Payload
+		} else {
+			delete(s.target3, a.ID)
+		}
+	}
+	s.attempts3 = append(s.attempts3, a)
+	s.mu.Unlock()
+	s.logf("r3 op %s id=%d payload=%d rev=%d status=%s ok=%v", a.Op, a.ID, a.Payload, a.Rev, a.Kind, a.OK)
+	if fail {
+		return errors.New("injected failure (r3)")
+	}
+	return nil
+}
+
+func (o *ops3) Update(ctx context.Context, txn statedb.ReadTxn, rev statedb.Revision, obj *RObj) error {
+	return o.do("update", obj, rev)
+}
+func (o *ops3) Delete(ctx context.Context, txn statedb.ReadTxn, rev statedb.Revision, obj *RObj) error {
+	return o.do("delete", obj, rev)
+}
+func (o *ops3) Prune(ctx context.Context, txn statedb.ReadTxn, objs iter.Seq2[*RObj, statedb.Revision]) error {
+	return nil
+}
+
+func getStatus3(o *RObj) reconciler.Status { return o.Statuses.Get("r3") }
+func setStatus3(o *RObj, st reconciler.Status) *RObj {
+	o.Statuses = o.Statuses.Set("r3", st)
+	return o
+}
+
+// checkSecond: the same obligations for the real second reconciler. final = failures and changes stopped and the bound elapsed.
+func (s *sim) checkSecond(what string, final bool) {
+	if !s.cfg.Second {
+		return
+	}
+	rt := s.db.ReadTxn()
+	s.mu.Lock()
+	target := map[uint64]uint64{}
+	for k, v := range s.target3 {
+		target[k] = v
+	}
+	model := map[uint64]uint64{}
+	for k, v := range s.model {
+		model[k] = v
+	}
+	attempts := append([]Attempt(nil), s.attempts3...)
+	s.mu.Unlock()
+	for o := range s.table.All(rt) {
+		st := getStatus3(o)
+		if st.Kind == reconciler.StatusKindDone {
+			if tp, ok := target[o.ID]; !ok || tp != o.Payload {
+				s.violate("conv", "r3-done-but-target-differs", "%s: object id=%d payload=%d has status Done for the second reconciler but its target holds payload %d (present=%v)", what, o.ID, o.Payload, tp, ok)
+				return
+			}
+		}
+		if st.Kind == reconciler.StatusKindDone || st.Kind == reconciler.StatusKindError {
+			okAttempt := false
+			for _, a := range attempts {
+				if a.Op == "update" && a.ID == o.ID && a.Payload == o.Payload && a.OK == (st.Kind == reconciler.StatusKindDone) {
+					okAttempt = true
+				}
+			}
+			if !okAttempt {
+				s.violate("status", "r3-status-misreported", "%s: object id=%d payload=%d has status %s for the second reconciler, which issued no Update with that outcome for this version", what, o.ID, o.Payload, st.Kind)
+				return
+			}
+		}
+		if final && st.Kind != reconciler.StatusKindDone {
+			s.violate("conv", "r3-not-done", "%s: object id=%d payload=%d has status %s for the second reconciler after failures and changes stopped and the bound elapsed", what, o.ID, o.Payload, st.Kind)
+			return
+		}
+	}
+	if !final {
+		return
+	}
+	for id, p := range model {
+		if target[id] != p {
+			s.violate("conv", "r3-target-differs", "%s: the second reconciler's target has payload %d for id=%d, table has %d", what, target[id], id, p)
+			return
+		}
+	}
+	for id, p := range target {
+		if _, ok := model[id]; !ok {
+			s.violate("conv", "r3-target-has-removed-object", "%s: the second reconciler's target still holds id=%d payload=%d although it was removed from the table", what, id, p)
+			return
+		}
+	}
 }
 
 type batchOps struct{ o *ops }
@@ -589,7 +701,7 @@ func (s *sim) pacingChecks() {
 			s.waits++
 			// (with refreshing enabled the refresh loop re-marks objects on its own schedule, which is a change the event log
 			// does not see: an immediate new attempt may be a refresh, not a retry, so the lower bound is not judged there)
-			if wait < min && !s.cfg.Refresh {
+			if wait < min && !s.cfg.Refresh && !s.cfg.Second {
 				s.violate("pacing", "retry-too-early", "id=%d: retry %.3fms after the failed %s, minimum backoff is %v", id, float64(wait)/1e6, p.Op, min)
 				return
 			}
@@ -624,7 +736,7 @@ func Run(t *testing.T, r *vkit.Run, idx int, cfg Config) {
 	defer stop()
 	synctest.Test(t, func(t *testing.T) {
 		s := &sim{r: r, idx: idx, rng: r.Rand(idx), opRng: r.Rand(idx, 7), cfg: cfg, fp: vkit.NewHash(), target: map[uint64]uint64{}, model: map[uint64]uint64{},
-			modelRev: map[uint64]uint64{}, r2done: map[uint64]uint64{}, t0: time.Now()}
+			modelRev: map[uint64]uint64{}, r2done: map[uint64]uint64{}, t0: time.Now(), target3: map[uint64]uint64{}, op3Rng: r.Rand(idx, 8)}
 		o := &ops{s}
 		var bops reconciler.BatchOperations[*RObj]
 		if cfg.Batch {
@@ -669,6 +781,17 @@ func Run(t *testing.T, r *vkit.Run, idx int, cfg Config) {
 			cell.Module("test", "test",
 				cell.Invoke(func(p reconciler.Params) (err error) {
 					s.rec, err = reconciler.Register(p, s.table, (*RObj).Clone, setStatus, getStatus, o, bops, opts...)
+					return err
+				}),
+			),
+			cell.Module("test3", "test3",
+				cell.Invoke(func(p reconciler.Params) (err error) {
+					if !cfg.Second {
+						return nil
+					}
+					_, err = reconciler.Register(p, s.table, (*RObj).Clone, setStatus3, getStatus3, &ops3{s}, nil,
+						reconciler.WithName("r3"), reconciler.WithRetry(cfg.BackoffMin, cfg.BackoffMax), reconciler.WithoutPruning(),
+						reconciler.WithRoundLimits(cfg.RoundSize, rate.NewLimiter(rate.Inf, 1)))
 					return err
 				}),
 			),
@@ -725,8 +848,16 @@ func Run(t *testing.T, r *vkit.Run, idx int, cfg Config) {
 					// every change up to rev that is still the current version of its key must have been attempted
 					s.mu.Lock()
 					defer s.mu.Unlock()
+					// with a real second reconciler its status writes move objects to later revisions (as the simulated one's
+					// status-only writes do, which modelRev follows): an object whose revision is now above rev is a later change
+					cur := map[uint64]uint64{}
+					if cfg.Second {
+						for o, orev := range s.table.All(s.db.ReadTxn()) {
+							cur[o.ID] = orev
+						}
+					}
 					for id, mrev := range s.modelRev {
-						if mrev > rev {
+						if mrev > rev || cur[id] > rev {
 							continue
 						}
 						attempted := false
@@ -749,6 +880,9 @@ func Run(t *testing.T, r *vkit.Run, idx int, cfg Config) {
 			time.Sleep(time.Duration(50+s.rng.IntN(400)) * time.Millisecond)
 			synctest.Wait()
 			s.checkTableAgainstModel(fmt.Sprintf("phase %d", ph))
+			if !s.failed {
+				s.checkSecond(fmt.Sprintf("phase %d", ph), false)
+			}
 			if cfg.Pacing && !s.failed {
 				// in pacing runs no write races with the reconciler: every change has been seen, the watermark is exact
 				time.Sleep(2 * cfg.BackoffMax)
@@ -779,6 +913,9 @@ func Run(t *testing.T, r *vkit.Run, idx int, cfg Config) {
 		if !s.failed {
 			s.convergenceCheck("final")
 		}
+		if !s.failed {
+			s.checkSecond("final", true)
+		}
 		if !s.failed && !cfg.Refresh {
 			s.checkWatermark("final")
 		}
@@ -794,6 +931,7 @@ func Run(t *testing.T, r *vkit.Run, idx int, cfg Config) {
 				nfail++
 			}
 		}
+		r.Count("second_reconciler_attempts", int64(len(s.attempts3)))
 		r.Count("operation_attempts", int64(len(s.attempts)))
 		r.Count("failed_attempts", int64(nfail))
 		r.Count("user_writes", int64(len(s.writes)))
@@ -830,6 +968,7 @@ func RandomConfig(rng *rand.Rand, pacing bool) Config {
 		Phases:  2 + rng.IntN(4),
 		Pacing:  pacing,
 	}
+	c.Second = !pacing && rng.IntN(3) == 0
 	if pacing {
 		c.LimiterMS = 0
 		c.Refresh = false
